@@ -20,7 +20,7 @@ def check_C06(tier):
     tr, st, p = kit.drive("eqdrive", "C06", ["-prop", "C06", "-tier", tier, "-table", table])
     env, olog = oracle_env("C06")
     env["VERIF_TABLE"] = table
-    v = judge_sharded_oracle("C06", "TraceXmssEq", "TraceKit", tr, env, st.get("events"), shards=12, heavy=('"ev":"key"', '"ev":"sig"'))
+    v = judge_sharded_oracle("C06", "TraceXmssEq", "TraceKit", tr, env, st.get("events"), shards=12, heavy=('"ev":"key"', '"ev":"sig"', '"ev":"sighead"'))
     fallbacks = sum(1 for _ in open(olog)) if os.path.exists(olog) else 0
     if st.get("rows_failing_audit") or fallbacks:
         log("MODEL-DRIFT property=C06: %s recorded hash rows failed the audit, %d hash inputs prescribed by the equations were never hashed by the library" %
